@@ -31,7 +31,8 @@ TIERS = {
     "thorough": {"budget_s": 600, "chunk": 400, "selftest": 512, "minimise_s": 90},
 }
 PROBES = ["set_with_fault", "dict_key_fault", "required_field_excluded", "typed_addition_fault", "varargs_fault",
-          "rule_leaf_fault", "length_bound_after_exclusion", "mode_required_field", "dependency_missing_for_kept_field", "excluded_field_with_dependency"]
+          "rule_leaf_fault", "length_bound_after_exclusion", "mode_required_field", "dependency_missing_for_kept_field", "excluded_field_with_dependency",
+          "data_class_elements", "property_output_offending"]
 POL = ["throw", "exclude", "preserve"]
 FAIL = object()
 
@@ -56,7 +57,7 @@ def generate(rng, tier):
         # Optional[container]: the container is parsed as a branch of a union
         return ["opt", t_] if rng.random() < 0.25 else t_
     if kind == "rule":
-        t = maybe_opt(tdsl.gen_container(rng, rng.choice([1, 1, 1, 2, 2, 3]), rule_leaves=RL))
+        t = maybe_opt(tdsl.gen_container(rng, rng.choice([1, 1, 1, 2, 2, 3]), rule_leaves=RL, dc_items=True))
         plan["type"] = t
         plan["input"] = tdsl.gen_value(rng, t, pool, positions)
         if rng.random() < 0.3:
@@ -66,7 +67,7 @@ def generate(rng, tier):
         inp = {}
         plan["mode"] = rng.choice([None, None, "a", "b"])
         for i in range(rng.choice([1, 2, 2, 3, 4])):
-            t = tdsl.gen_scalar(rng, rule_leaves=RL) if rng.random() < 0.55 else maybe_opt(tdsl.gen_container(rng, rng.choice([1, 1, 2]), rule_leaves=RL))
+            t = tdsl.gen_scalar(rng, rule_leaves=RL) if rng.random() < 0.55 else maybe_opt(tdsl.gen_container(rng, rng.choice([1, 1, 2]), rule_leaves=RL, dc_items=True))
             required = rng.random() < 0.5
             f = {"name": "f%d" % i, "type": t, "required": required,
                  "default": None if required else rng.choice(["absent", "none", "leaf"]),
@@ -89,6 +90,11 @@ def generate(rng, tier):
             for f in fields:
                 if not f["required"] and rng.random() < 0.6:
                     f["deps"] = True
+        if kind == "schema" and rng.random() < 0.2:
+            # a typed @property (output field): the getter hands back a payload; its setter has its own, different on_error
+            pid = pool.next()
+            positions.append((["pr"], "leaf", pid))
+            plan["pprop"] = pid
         plan["fields"] = fields
         plan["addition"] = rng.choice([None, None, "leaf", True])
         if plan["addition"] is not None:
@@ -164,6 +170,17 @@ def build(plan, strict=False):
                 kw["on_error"] = f["on_error"]
             if kw:
                 ns[f["name"]] = Field(**kw)
+        if plan.get("pprop") is not None:
+            ppid = plan["pprop"]
+
+            def pr(self) -> faults.Leaf:
+                return faults.Raw(ppid)
+            pr.__annotations__ = {"return": faults.Leaf}
+
+            def pr_set(self, val: int = Field(required=False, on_error="exclude")):
+                pass
+            pr_set.__annotations__ = {"val": int}
+            ns["pr"] = property(pr, pr_set)
         if plan.get("dep_target"):
             ns["__annotations__"]["d0"] = int
             ns["d0"] = Field(required=False)
@@ -303,6 +320,18 @@ def ref_plan(plan, value, pol, stats):
                 return FAIL
         if "d0" in value:
             out["d0"] = int(value["d0"])
+        if plan.get("pprop") is not None:
+            r = _scalar_alone(["leaf"], faults.Raw(plan["pprop"]))
+            if r is FAIL:
+                # the output field has no on_error of its own: the policy in force is the options' invalid_values
+                p = pol["invalid_values"]
+                stats["probe:property_output_offending"] += 1
+                if p == "throw":
+                    return FAIL
+                if p == "preserve":
+                    out["pr"] = faults.Raw(plan["pprop"])
+            else:
+                out["pr"] = r
         add = plan.get("addition")
         for key, v in value.items():
             if key.startswith("x"):
@@ -482,6 +511,8 @@ def execute(plan):
         res.stats["probe:rule_leaf_fault"] += 1
     if fired and (plan.get("max_len") or any(f.get("max_len") for f in plan.get("fields", []))) and "exclude" in pols:
         res.stats["probe:length_bound_after_exclusion"] += 1
+    if '"dcitem"' in kernel.jdump(plan.get("type") or plan.get("fields") or ""):
+        res.stats["probe:data_class_elements"] += 1
     if fired and plan.get("mode") == "a" and any(f["required"] == "mode" for f in plan.get("fields", [])):
         res.stats["probe:mode_required_field"] += 1
 
